@@ -37,7 +37,7 @@ def _is_read_open(c: ast.Call) -> bool:
 def _guarded(mod, fn, cfg: CFG, c: ast.Call) -> bool:
     node = cfg.node_of(c)
     for fact, truth in facts_at(cfg, node):
-        if truth and "exists(" in fact:
+        if truth and ("exists(" in fact or "isfile(" in fact):
             return True
     # enclosing try with a handler for the missing-path exception
     p = mod.parent.get(c)
